@@ -164,6 +164,17 @@ def aliased_refs(check, ctx, case, upto=None):
     for (u, t) in pairs:          # identical text: no query needed, no cap
         if u == t:
             out.update((u, t))
+    declared = {d['name'] for d in h['decls'] if d['k'] == 'declare-fun'}
+
+    def syms(x):
+        return frozenset(w for w in x.replace('(', ' ').replace(')', ' ').split() if w in declared)
+    sy = {}
+    for (u, t) in pairs:
+        for x in (u, t):
+            if x not in sy:
+                sy[x] = syms(x)
+    # equivalent formulas usually mention the same symbols: those pairs are asked first (the budget matters in long histories)
+    pairs = sorted(pairs, key=lambda p: 0 if sy[p[0]] == sy[p[1]] else (1 if (sy[p[0]] <= sy[p[1]] or sy[p[1]] <= sy[p[0]]) else 2))
     budget = 1500
     for (u, t) in pairs:
         if u == t or (u in out and t in out):
@@ -293,6 +304,55 @@ class ArtifactCheck(HistCheck):
         return {'logic': case['hist']['logic']}
 
 
+def stale_arith_uf_arg(case, upto):
+    """Cause feature: some numeric variable is a direct argument of an uninterpreted function in a live assertion while its
+    only arithmetic constraints (occurrences under + - * / comparisons) are in *popped* assertions. The LA solver then still
+    knows the variable (solver variables are never removed) and gives it a value, but it is no longer treated as a variable
+    shared between the two theories."""
+    h = case['hist']
+    numvars = {d['name'] for d in h['decls'] if d['k'] == 'declare-fun' and not d['args'] and d['ret'] in ('Int', 'Real')}
+    ufs = {d['name'] for d in h['decls'] if d['k'] == 'declare-fun' and d['args']}
+    ARITH = {'+', '-', '*', '/', '<', '<=', '>', '>=', 'div', 'mod'}
+
+    def walk(e, out_arith, out_ufarg):
+        if isinstance(e, str) or not e:
+            return
+        head = e[0] if isinstance(e[0], str) else None
+        for x in e[1:]:
+            if isinstance(x, str):
+                if x in numvars:
+                    if head in ufs:
+                        out_ufarg.add(x)
+                    elif head in ARITH:
+                        out_arith.add(x)
+            else:
+                walk(x, out_arith, out_ufarg)
+        if head is None:
+            walk(e[0], out_arith, out_ufarg)
+    levels = [[]]
+    popped_arith = set()
+    for c in h['commands'][:upto + 1]:
+        if c.get('fault'):
+            continue
+        if c['k'] == 'push':
+            levels += [[] for _ in range(c['n'])]
+        elif c['k'] == 'pop' and c['n'] < len(levels):
+            for lv in levels[len(levels) - c['n']:]:
+                for (ar, ua) in lv:
+                    popped_arith |= ar
+            del levels[len(levels) - c['n']:]
+        elif c['k'] == 'assert':
+            ar, ua = set(), set()
+            try:
+                walk(sexpr.parse_one(c['ref']), ar, ua)
+            except sexpr.SexprError:
+                pass
+            levels[-1].append((ar, ua))
+    live_arith = set().union(*[ar for lv in levels for (ar, ua) in lv]) if any(levels) else set()
+    live_ufarg = set().union(*[ua for lv in levels for (ar, ua) in lv]) if any(levels) else set()
+    return bool((live_ufarg & popped_arith) - live_arith)
+
+
 class C03(ArtifactCheck):
     pid = 'C03'
     profiles = gen.MODEL_PROFILES
@@ -324,6 +384,7 @@ class C03(ArtifactCheck):
                 'bool_arg_uf': any(d['k'] == 'declare-fun' and 'Bool' in d['args'] for d in case['hist']['decls']),
                 # the printed model itself is malformed in a known way: an abstract value of sort Bool, (as @5 Bool), in the
                 # table of an uninterpreted function with a Boolean argument
+                'stale_arith_uf_arg': stale_arith_uf_arg(case, v['index']),
                 'bool_abstract_value': any(o and re.search(r'\(as @\w+ Bool\)', o) for o in getattr(self, '_outs', []) or []),
                 # an assertion level was pushed at some point (a popped level still leaves its activation variable in the SAT solver)
                 'pushed': any(c['k'] == 'push' for c in case['hist']['commands'])}
@@ -345,8 +406,13 @@ class C06(ArtifactCheck):
         # while its name stays attached to the term as written
         named_ite = any(c['k'] == 'assert' and not c.get('fault') and '(ite ' in c['ref'] and any(n[3] for n in c.get('names', []))
                         for c in case['hist']['commands'][:v['index']])
+        # difference logic with constants near the machine-word range: the fresh solver used by the minimisation overflows and
+        # answers unknown, and an element whose removal could not be decided is kept
+        text = ' '.join(c.get('ref', '') for c in case['hist']['commands'][:v['index']] if c['k'] == 'assert')
+        big = any(len(tok) >= 16 and tok.isdigit() for tok in text.replace('(', ' ').replace(')', ' ').split())
+        dl = case['hist']['logic'] in ('QF_IDL', 'QF_RDL', 'QF_UFIDL', 'QF_UFRDL')
         return {'full': opt_on(case['options'], ':print-cores-full'), 'minimal': opt_on(case['options'], ':minimal-unsat-cores'),
-                'alias': alias_explains_core(self, ctx, case, v), 'named_ite': named_ite}
+                'alias': alias_explains_core(self, ctx, case, v), 'named_ite': named_ite, 'dl_bigconst': bool(big and dl)}
 
 
 class C07(C06):
